@@ -108,6 +108,23 @@ def replay_case(ctx):
     ctx.cover(evaluations=1, distinct_nontrivial=1, traces_validated_against_impl=1, rule="replay of one stored row", samples=[row])
 
 
+def _calls_scope(field, exp, got, info):
+    return not info["after_end"]
+
+
+# every script-side call runs the registered function with ITS arguments: calls nested among the later arguments of other
+# calls, host functions with side effects, converted named-type functions, in expressions evaluated again and again
+CALLS = dict(
+    sig="bridge-calls", scope=_calls_scope, merge=True,
+    cs=[dict(family="expr", n=(40, 300), paths=(2, 4), calls=30,
+             label="YarnTrace: nested and repeated calls of host functions")],
+    nontrivial=lambda c: True,
+    rule="programs of the expr family (deep expression trees with probe functions, converted named-type functions, calls nested among "
+         "the arguments of other calls, a host function that writes a variable): random walks trace-validated; judged: the invocation log "
+         "(which function, which arguments, in which order) and every value that depends on a call's result",
+)
+
+
 def pending_part(ctx, thorough):
     """`converts its result or error back` when the outcome arrives LATER: converted commands of every shape (no result, error,
     chan error - unbuffered and owned by the handler -, <-chan error, variadic) blocked on gates and released by the harness,
@@ -142,6 +159,9 @@ def run(ctx):
         rp = json.load(open(ctx.replay))["payload"]
         if str(rp.get("case", {}).get("family", "")).startswith("cmdrace"):
             return pending_part(ctx, False)   # goroutine cases cannot be re-driven event by event: re-run the tier
+        if rp.get("kind") in ("replay", "trace") and "row" not in rp.get("case", {}):
+            import core_common as cc
+            return cc.replay_core(ctx, CALLS)
         return replay_case(ctx)
     rep = Reporter(ctx)
     samples = []
@@ -230,6 +250,8 @@ def run(ctx):
         exhaustive=True, nonvacuity=nonvac, binding_selftest=selftest, samples=samples,
     )
     pending_part(ctx, thorough)
+    import core_common as cc
+    cc.run_core_check(ctx, CALLS)
     ctx.assumptions += [
         "numbers handed to integer kinds are integral and in range, numbers handed to float32 are exactly representable (conversion is then unambiguous)",
         "uint family parameters/results: refused, or accepted and faithful (the property does not settle them)",
